@@ -306,9 +306,11 @@ def run_controls(mod, prop, known_keys):
         return out
     base = os.path.join(os.environ.get("TMPDIR", "/tmp"), "verif-controls")
     os.makedirs(base, exist_ok=True)
-    lock = open(os.path.join(base, ".lock"), "w")
+    # one scratch copy (and hence one cargo target directory under /verif/.work) per property, so that the thorough
+    # commands of different properties can run in parallel
+    lock = open(os.path.join(base, ".lock-%s" % prop), "w")
     fcntl.flock(lock, fcntl.LOCK_EX)
-    scratch = os.path.join(base, "repo")
+    scratch = os.path.join(base, "repo-%s" % prop)
     try:
         for d in dirs:
             name = os.path.basename(d)
